@@ -22,6 +22,7 @@ PLAN = {
     "C09": {"level": "fault_enumeration", "units": [
         unit("side", "TestC09RoundTrip", 300, 4000, replay="TestReplayC09"),
         unit("side", "TestC09Torn", 12, 150, shrinktime="30s", seed_off=300),
+        unit("side", "TestC09Kill", 8, 120, shrinktime="30s", seed_off=800),
         unit("side", "TestC09OldFile", 150, 2000, seed_off=600)]},
     "C10": {"level": "exploration", "units": [unit("side", "TestC10", 600, 12000, replay="TestReplayC10")]},
     "C11": {"level": "exploration", "units": [unit("cfgh", "TestC11", 600, 10000, replay="TestReplayC11", shrinktime="30s")]},
